@@ -41,6 +41,10 @@ func init() {
 			{Name: "variables validated only when the raw bytes start with '{' (reverts the F28 fix)", File: execEngineGo, Rule: "C06-R3", Key: "vars-ok",
 				Old: "\tif err := validator.ValidateWithRemap(operation.Document(), e.config.schema.Document(), variables, remapVariables); err != nil {\n\t\treturn err\n\t}\n",
 				New: "\tif len(operation.Variables) > 0 && operation.Variables[0] == '{' {\n\t\tif err := validator.ValidateWithRemap(operation.Document(), e.config.schema.Document(), variables, remapVariables); err != nil {\n\t\t\treturn err\n\t\t}\n\t}\n"},
+			{Name: "default-value exemption taken for an explicit null again (reverts the F29 fix)", File: varsValGo, Rule: "C06-R7", Key: "traverseFieldDefinitionType/default-exempts-only-an-absent-value",
+				Old: "\t\t\tif jsonValue == nil && v.definition.InputValueDefinitionHasDefaultValue(inputFieldRef) {", New: "\t\t\tif v.definition.InputValueDefinitionHasDefaultValue(inputFieldRef) {"},
+			{Name: "Int arm tests only the JSON kind again (reverts the F30 fix)", File: varsValGo, Rule: "C06-R8", Key: "traverseNamedTypeNode/int-arm-inspects-the-number",
+				Old: "\t\t\tif jsonValue.Type() != astjson.TypeNumber || !numberIsInt32(jsonValue) {", New: "\t\t\tif jsonValue.Type() != astjson.TypeNumber {"},
 			{Name: "validator error slot not reset between requests", File: varsValGo, Rule: "C06-R4", Key: "err-reset-before-walk",
 				Old: "\tv.visitor.variables, v.visitor.err = astjson.ParseBytes(variables)\n\tif v.visitor.err != nil {\n\t\treturn v.visitor.err\n\t}\n", New: "\tparsed, perr := astjson.ParseBytes(variables)\n\tif perr != nil {\n\t\treturn perr\n\t}\n\tv.visitor.variables = parsed\n"},
 			{Name: "null list items skipped before descending", File: varsValGo, Rule: "C06-R5", Key: "traverseFieldDefinitionType",
@@ -57,6 +61,7 @@ func runC06(r *fw.Run) {
 		return
 	}
 	info := pk.TypesInfo
+	defer c06IntArmInspectsContent(r)
 
 	// ---- R1 redaction --------------------------------------------------------------------------
 	r.Rule("C06-R1", "variable content (MarshalTo / GetStringBytes / String / GetArray items … of a JSON value, through locals and helper parameters) reaches an error message only inside a call of a sanitiser (a function branching on DisableExposingVariablesContent)")
@@ -412,6 +417,11 @@ func runC06(r *fw.Run) {
 			return true
 		})
 	}
+	nDefaultExits := 0
+	defer func() {
+		r.Rule("C06-R7", "the exemption 'a required input field with a default value may be missing' is taken only on the edge where the value is absent (jsonValue == nil), never for an explicit null")
+		r.Expect("C06-R7", "exits that rely on the field's default value", nDefaultExits, 1)
+	}()
 	for _, name := range []string{"variablesVisitor.traverseOperationType", "variablesVisitor.traverseFieldDefinitionType"} {
 		fi := p.Func("varsvalidation", name)
 		if fi == nil {
@@ -440,10 +450,18 @@ func runC06(r *fw.Run) {
 			Cond: func(e ast.Expr, branch bool, st *fw.State) {
 				// normalised atoms, so that the spelling of the test (x == nil, !(x != nil), len(a) == 0, len(a) < 1 …) is irrelevant
 				at := fw.Atom(info, e, branch)
+				if at.Kind == "True" {
+					if c, isCall := ast.Unparen(at.X).(*ast.CallExpr); isCall {
+						if fn := fw.Callee(info, c); fn != nil && fn.Name() == "InputValueDefinitionHasDefaultValue" {
+							st.Set("default-edge")
+						}
+					}
+				}
 				switch at.Kind {
 				case "Nil": // jsonValue == nil
 					if isJV(at.X) {
 						st.Set("ok")
+						st.Set("absent")
 					}
 				case "Empty": // len(jsonValue.GetArray()) == 0
 					if ic, isIC := ast.Unparen(at.X).(*ast.CallExpr); isIC {
@@ -474,6 +492,7 @@ func runC06(r *fw.Run) {
 					}
 					if errWriters[fn] { // an error renderer
 						st.Set("ok")
+						st.Set("error")
 					}
 					// descends: a traversal of this package that receives the value (or an element of it)
 					if fn.Pkg() == fi.Obj.Pkg() && strings.HasPrefix(fn.Name(), "traverse") {
@@ -514,6 +533,11 @@ func runC06(r *fw.Run) {
 				}
 				r.Check(st.Must("ok"), "C06-R6", name+"/exit-checked-or-nothing-to-check#"+itoa(nExit), p.Pos(pos), "exit of "+name+" follows an error, a descent into the value, or an absent/null/empty value",
 					"this exit is reached with a provided, non-null value that was neither rejected nor handed to the next traversal step: whatever the client sent at this position is accepted unchecked (e.g. a field with a default value whose provided value is never type-checked)")
+				if st.Must("default-edge") && !st.May("error") {
+					nDefaultExits++
+					r.Check(st.Must("absent"), "C06-R7", name+"/default-exempts-only-an-absent-value#"+itoa(nExit), p.Pos(pos), "the exit of "+name+" that relies on the field's default value is reached only with an absent value (jsonValue == nil)",
+						"the 'has a default value' exemption is reachable with a value that is present: an explicit null for a Non-Null input field (or a null item of its list) is accepted because the field declares a default — defaults apply to absent fields only, null is never coercible to T!")
+				}
 			},
 		}
 		in.Run(nil)
@@ -557,4 +581,89 @@ func sanitiserDropsContent(fi *fw.FuncInfo) bool {
 	}
 	in.Run(nil)
 	return ok && seenDisabledExit
+}
+
+// c06IntArmInspectsContent (R8): the JSON kind "number" does not tell 1 from 1.5 or from 1e100. The arm of the built-in
+// scalar dispatch that accepts a value for Int must therefore look at the number itself: on every path that leaves the
+// arm without an error, the JSON value was used in a call other than its Type() accessor (a content accessor, or a
+// helper that receives the value). An arm that only compares Type() accepts every JSON number for Int — the same
+// test as the Float arm, for a strictly smaller domain.
+func c06IntArmInspectsContent(r *fw.Run) {
+	p := r.Prog
+	r.Rule("C06-R8", "the arm of the built-in scalar dispatch that accepts a value for Int inspects the number's content on every accepting path (the JSON kind alone cannot tell an integer from 1.5 or 1e100)")
+	n := 0
+	for _, fi := range p.Funcs("varsvalidation") {
+		info := fi.Info()
+		var jv *types.Var
+		sig := fi.Obj.Type().(*types.Signature)
+		for i := 0; i < sig.Params().Len(); i++ {
+			if strings.HasSuffix(sig.Params().At(i).Type().String(), "astjson.Value") {
+				jv = sig.Params().At(i)
+			}
+		}
+		if jv == nil {
+			continue
+		}
+		usesJV := func(e ast.Expr) bool {
+			id, ok := ast.Unparen(e).(*ast.Ident)
+			return ok && info.Uses[id] == jv
+		}
+		fw.WalkAll(fi.Decl.Body, func(nd ast.Node) bool {
+			cc, ok := nd.(*ast.CaseClause)
+			if !ok {
+				return true
+			}
+			isInt := false
+			for _, v := range cc.List {
+				if cv, isC := fw.ConstVal(info, v); isC && (cv == `"Int"` || cv == "Int") {
+					if tv, okT := info.Types[v]; okT && tv.Value != nil && tv.Value.Kind().String() == "String" {
+						isInt = true
+					}
+				}
+			}
+			if !isInt {
+				return true
+			}
+			// only the dispatch that validates (it has an error exit), not the one that words the message
+			accepts := false
+			in := fw.NewInterp(fi)
+			in.H = fw.Hooks{Node: func(m ast.Node, st *fw.State) {
+				c, isCall := m.(*ast.CallExpr)
+				if !isCall {
+					return
+				}
+				if sel, isSel := ast.Unparen(c.Fun).(*ast.SelectorExpr); isSel && usesJV(sel.X) {
+					if sel.Sel.Name != "Type" {
+						st.Set("inspected")
+					}
+					return
+				}
+				for _, a := range c.Args {
+					if usesJV(a) {
+						st.Set("inspected")
+					}
+				}
+			}}
+			hasTypeTest := false
+			fw.WalkAll(cc, func(m ast.Node) bool {
+				if c, isCall := m.(*ast.CallExpr); isCall {
+					if sel, isSel := ast.Unparen(c.Fun).(*ast.SelectorExpr); isSel && usesJV(sel.X) && sel.Sel.Name == "Type" {
+						hasTypeTest = true
+					}
+				}
+				return true
+			})
+			if !hasTypeTest {
+				return true
+			}
+			accepts = true
+			end := in.RunStmts(cc.Body, nil)
+			n++
+			_ = accepts
+			r.Check(end == nil || end.Must("inspected"), "C06-R8", fi.Name()+"/int-arm-inspects-the-number", p.Pos(cc.Pos()), "every accepting path through the Int arm of "+fi.Name()+" looks at the number (not only at its JSON kind)",
+				"the Int arm can be left without an error after testing only jsonValue.Type(): 1.5, 1e100 and 2147483648 are accepted for Int (and forwarded to the subgraph) — the same test as the Float arm for a strictly smaller domain")
+			return true
+		})
+	}
+	r.Expect("C06-R8", "Int arms of a validating scalar dispatch", n, 1)
 }
